@@ -33,11 +33,22 @@ type typedPass struct {
 	hasDoor  map[*types.Func]bool
 	doors    []doorSite
 	mapFull  map[string]bool // package level map var of flows/actions -> keys cover the key type's constants
+	reached  map[token.Pos]bool
 }
 
 type doorSite struct {
 	Site  string // rel/file.go:Func:kind
 	Class string // Results.method | run.SaveResult | action-sink | router-sink | other
+	pos   token.Pos
+}
+
+// finalClass: a door inside flows/actions or flows/routers must have been reached from the Execute / Route /
+// RouteTimeout of some registered type (otherwise no row of the table accounts for it)
+func (tp *typedPass) finalClass(d doorSite) string {
+	if (d.Class == "action-sink" || d.Class == "router-sink") && !tp.reached[d.pos] {
+		return d.Class + "-unreached"
+	}
+	return d.Class
 }
 
 const modPath = "github.com/nyaruka/goflow"
@@ -103,7 +114,7 @@ func loadTyped(repo string) *typedPass {
 		fatal("typed pass: load: %v", err)
 	}
 	tp := &typedPass{repo: abs, decl: map[*types.Func]*ast.FuncDecl{}, declPkg: map[*types.Func]*packages.Package{},
-		hasDoor: map[*types.Func]bool{}, mapFull: map[string]bool{}}
+		hasDoor: map[*types.Func]bool{}, mapFull: map[string]bool{}, reached: map[token.Pos]bool{}}
 	for _, p := range pkgs {
 		if len(p.Errors) > 0 {
 			fatal("typed pass: package %s has errors: %v", p.PkgPath, p.Errors[0])
@@ -137,7 +148,7 @@ func loadTyped(repo string) *typedPass {
 			for _, d := range tp.doorsIn(p, fd.Body) {
 				tp.hasDoor[obj] = true
 				file := tp.rel(tp.fset.Position(d.pos).Filename)
-				tp.doors = append(tp.doors, doorSite{Site: file + ":" + funcLabel(obj) + ":" + d.kind, Class: classify(p.PkgPath, obj)})
+				tp.doors = append(tp.doors, doorSite{Site: file + ":" + funcLabel(obj) + ":" + d.kind, Class: classify(p.PkgPath, obj), pos: d.pos})
 			}
 		}
 	}
@@ -233,6 +244,7 @@ func (tp *typedPass) reach(pkgPath, structName string, roots []string) []string 
 		}
 		for _, d := range tp.doorsIn(pkg, fd.Body) {
 			pos := tp.fset.Position(d.pos)
+			tp.reached[d.pos] = true
 			out[fmt.Sprintf("door:%s:%d", filepath.Base(pos.Filename), pos.Line)] = true
 		}
 		ast.Inspect(fd.Body, func(x ast.Node) bool {
@@ -296,10 +308,12 @@ func (tp *typedPass) mapCoverage() {
 						}
 						// all constants of the key type declared in its package
 						want := map[string]bool{}
+						nconst := 0
 						sc := kn.Obj().Pkg().Scope()
 						for _, n := range sc.Names() {
 							if c, ok := sc.Lookup(n).(*types.Const); ok && types.Identical(c.Type(), kn) {
 								want[c.Val().ExactString()] = true
+								nconst++
 							}
 						}
 						for _, e := range cl.Elts {
@@ -309,7 +323,7 @@ func (tp *typedPass) mapCoverage() {
 								}
 							}
 						}
-						tp.mapFull[id.Name] = len(want) == 0
+						tp.mapFull[id.Name] = nconst > 0 && len(want) == 0
 					}
 				}
 			}
